@@ -14,6 +14,7 @@ import (
 	"flag"
 	"fmt"
 	"os"
+	"sort"
 	"strings"
 	"sync/atomic"
 	"time"
@@ -66,7 +67,41 @@ func mtypes(ts []gopacket.LayerType) []int {
 	return r
 }
 
-func runScript(tr *vh.Trace, sc int, s scen) {
+// planFor picks the construction plan of a scenario: the plans whose order is a permutation of the
+// scenario's set, taken in rotation (every pair has one plan; all plans are used across the pairs).
+func planFor(plans map[string][]plan, sc int, set []int) plan {
+	if c := plans[fmt.Sprint(set)]; len(c) > 0 {
+		return c[sc%len(c)]
+	}
+	return plan{Order: set, Cut: len(set) / 2}
+}
+
+func loadPlans(path string) map[string][]plan {
+	out := map[string][]plan{}
+	if path == "" {
+		return out
+	}
+	f, err := os.Open(path)
+	if err != nil {
+		vh.Fatal(err)
+	}
+	rd := bufio.NewScanner(f)
+	for rd.Scan() {
+		var p plan
+		if err := json.Unmarshal(rd.Bytes(), &p); err != nil {
+			vh.Fatal("bad plan", err, rd.Text())
+		}
+		if p.Order == nil {
+			p.Order = []int{}
+		}
+		set := append([]int{}, p.Order...)
+		sort.Ints(set)
+		out[fmt.Sprint(set)] = append(out[fmt.Sprint(set)], p)
+	}
+	return out
+}
+
+func runScript(tr *vh.Trace, sc int, s scen, pl plan) {
 	data := make([]byte, len(s.Script))
 	for i, c := range s.Script {
 		data[i] = byte(c)
@@ -86,43 +121,71 @@ func runScript(tr *vh.Trace, sc int, s scen) {
 		}
 		ev["pkt"] = vh.M{"types": mtypes(lt), "trunc": pk.Metadata().Truncated, "fail": fail}
 		// the parsers
-		var obs []vh.M
-		var keys []string
-		var who []int // container + 4*flavour + 12*IgnoreUnsupported
-		for fi, fl := range []string{"cold", "warm", "pre"} {
+		var obs, mobs []vh.M
+		var keys, mkeys []string
+		var who, mwho []int // container + 4*flavour + 20*IgnoreUnsupported; mid: container + 4*IgnoreUnsupported
+		observe := func(p *gopacket.DecodingLayerParser, decoded []gopacket.LayerType, err error, mine []*sDL) (vh.M, string) {
+			k, ut, _ := errKind(err)
+			bad := ""
+			for _, l := range mine {
+				if l.misuse != "" {
+					bad = l.misuse
+				}
+			}
+			return vh.M{"types": mtypes(decoded), "err": k, "ut": modelType(ut), "trunc": p.Truncated, "bad": bad},
+				fmt.Sprint(decoded, k, ut, p.Truncated, bad)
+		}
+		for fi, fl := range []string{"cold", "warm", "pre", "add", "late"} {
 			for ii, ign := range []bool{false, true} {
 				for kind := 0; kind < 4; kind++ {
+					// the layers, in the order of the set (cold, warm, pre) or of the construction plan (add, late)
+					ord := s.S
+					if fi >= 3 {
+						ord = pl.Order
+					}
 					var dls []gopacket.DecodingLayer
 					var mine []*sDL
-					for _, t := range s.S {
+					for _, t := range ord {
 						l := &sDL{t: scriptTypes[t], parserSide: true}
 						mine = append(mine, l)
 						dls = append(dls, l)
 					}
-					p := newParser(first, kind, dls)
-					p.IgnoreUnsupported = ign
+					var p *gopacket.DecodingLayerParser
 					var decoded []gopacket.LayerType
+					switch fl {
+					case "add": // SetDecodingLayerContainer(empty), then AddDecodingLayer in the plan's order
+						p = addParser(first, kind, dls)
+						p.IgnoreUnsupported = ign
+					case "late": // part of the layers, a packet decoded, then the rest added
+						p = lateParser(first, kind, dls[:pl.Cut])
+						p.IgnoreUnsupported = ign
+						err := p.DecodeLayers(data, &decoded)
+						o, k := observe(p, decoded, err, mine)
+						mobs, mkeys, mwho = append(mobs, o), append(mkeys, k), append(mwho, kind+4*ii)
+						for _, d := range dls[pl.Cut:] {
+							p.AddDecodingLayer(d)
+						}
+					default:
+						p = newParser(first, kind, dls)
+						p.IgnoreUnsupported = ign
+					}
 					switch fl {
 					case "warm": // the parser decoded another packet before: a truncating layer of the first type, then this script's tail
 						warm := append([]byte{byte(s.Script[0]%128/16*16 + 1)}, data...)
 						p.DecodeLayers(warm, &decoded)
 					case "pre": // the caller's slice is not empty ("DecodeLayers truncates the 'decoded' slice initially")
-						decoded = append(decoded, scriptTypes[5], scriptTypes[5])
+						decoded = append(decoded[:0], scriptTypes[5], scriptTypes[5])
 					}
 					err := p.DecodeLayers(data, &decoded)
-					k, ut, _ := errKind(err)
-					bad := ""
-					for _, l := range mine {
-						if l.misuse != "" {
-							bad = l.misuse
-						}
-					}
-					obs = append(obs, vh.M{"types": mtypes(decoded), "err": k, "ut": modelType(ut), "trunc": p.Truncated, "bad": bad})
-					who = append(who, kind+4*fi+12*ii)
-					keys = append(keys, fmt.Sprint(decoded, k, ut, p.Truncated, bad))
+					o, k := observe(p, decoded, err, mine)
+					obs, keys, who = append(obs, o), append(keys, k), append(who, kind+4*fi+20*ii)
 				}
 			}
 		}
+		ms := append([]int{}, pl.Order[:pl.Cut]...)
+		sort.Ints(ms)
+		ev["plan"] = vh.M{"order": pl.Order, "cut": pl.Cut}
+		ev["mid"] = vh.M{"s": ms, "res": group(mobs, mwho, mkeys)}
 		ev["res"] = group(obs, who, keys)
 	})
 	if panicked {
@@ -139,6 +202,7 @@ func main() {
 	rounds := flag.Int("rounds", 1, "stale mode: number of pool draws per type")
 	seed := flag.Uint64("seed", 1, "seed")
 	in := flag.String("scenarios", "", "ndjson scenarios")
+	plansPath := flag.String("plans", "", "script mode: ndjson construction plans (ParserBuildGen.tla)")
 	out := flag.String("trace", "trace.ndjson", "trace output")
 	first := flag.String("first", "Ethernet", "explain mode: first layer type")
 	flag.IntVar(&round0, "round0", 0, "stale mode: index of the first pool draw")
@@ -177,6 +241,7 @@ func main() {
 		rd := bufio.NewScanner(f)
 		rd.Buffer(make([]byte, 1<<20), 1<<24)
 		var seqs [][]int
+		plans := loadPlans(*plansPath)
 		for rd.Scan() {
 			if *mode == "script" {
 				var s scen
@@ -186,7 +251,10 @@ func main() {
 				cnt++
 				progress.Store(int64(cnt))
 				curCase.Store(rd.Text())
-				runScript(tr, cnt, s)
+				if s.S == nil {
+					s.S = []int{}
+				}
+				runScript(tr, cnt, s, planFor(plans, cnt, s.S))
 			} else {
 				var s seqScen
 				if err := json.Unmarshal(rd.Bytes(), &s); err != nil || len(s.Seq) == 0 {
